@@ -126,6 +126,8 @@ def coverage_lines(tier, rng):
                     for c in (0, 1):
                         if full or rng.randrange(4) == 0:
                             yield f"c04.u.checked_ct {n} {hx(a)} {sa} {hx(b)} {sb} {c}"
+                    if full or rng.randrange(2) == 0:
+                        yield f"c04.u.checked_forms {n} {hx(a)} {sa} {hx(b)} {sb}"
             for c in (0, 1):
                 yield f"c04.u.wrapping_ct {n} {hx(a)} {hx(b)} {c}"
         alt = sum(0xa5a5a5a5a5a5a5a5 << (128 * i) for i in range((n + 1) // 2)) % m
